@@ -55,7 +55,7 @@ func NewB2Reader(r io.Reader) (*Reader, error) { return NewReader(r, true) }
 // It is the caller's responsibility to call Close on the Reader when done.
 func NewReader(r io.Reader, crc16 bool) (*Reader, error) {
 	d := &Reader{z: newLZHUFF(), crc16: crc16, crcw: newCRCWriter()}
-	d.state.r = _N - _R
+	d.state.r = _N - _F
 	for i := 0; i < _N-_F; i++ {
 		d.z.textBuf[i] = ' '
 	}
